@@ -371,7 +371,7 @@ class Syntax(JupyterMixin):
         )
         _get_theme_style = self._theme.get_style_for_token
         try:
-            lexer = get_lexer_by_name(self.lexer_name)
+            lexer = get_lexer_by_name(self.lexer_name, stripnl=False, ensurenl=True)
         except ClassNotFound:
             text.append(code)
         else:
@@ -395,7 +395,10 @@ class Syntax(JupyterMixin):
 
                     # Skip over tokens until line start
                     while line_no < _line_start:
-                        _token_type, token = next(tokens)
+                        try:
+                            _token_type, token = next(tokens)
+                        except StopIteration:
+                            break
                         yield (token, None)
                         if token.endswith("\n"):
                             line_no += 1
